@@ -2,7 +2,7 @@ CONSTANTS
   NS = 2
   Units = 2
   Lens = {2}
-  Wins = {1, 2}
+  Wins = {1}
   ConnWin = 3
   MaxStreamss = {2}
   NDg = 0
